@@ -772,6 +772,220 @@ theorem quota_never_stays_unlimited (f : FloatOps) (hf : FloatOK f) (b cur cap :
   rw [quota_from_unset_written f hf b cap hc] at h
   cases h
 
+/-! ### 14. the oracle's vocabulary: "eligible CPUs", "at least two", minimum quota -/
+
+/-- the two pools partition the CPUs that are neither reserved, system-exclusive nor in the LSE pool. -/
+theorem pools_length (pods : List PodC) (res sys : List Int) (procs : List Proc) :
+    (lsrPool pods res sys procs).length + (lsPool pods res sys procs).length =
+      (procs.filter (fun p => eligible res sys p && poolOf pods p.cpu != qLSE)).length := by
+  unfold lsrPool lsPool
+  induction procs with
+  | nil => rfl
+  | cons p ps ih =>
+    simp only [List.filter_cons]
+    have n1 : qLSR ≠ qLSE := by decide
+    have n2 : qLSE ≠ qLSR := by decide
+    by_cases he : eligible res sys p = true
+    · by_cases h1 : poolOf pods p.cpu = qLSR
+      · simp [he, h1, n1] at ih ⊢; omega
+      · by_cases h2 : poolOf pods p.cpu = qLSE
+        · simp [he, h2, n2] at ih ⊢; omega
+        · simp [he, h1, h2] at ih ⊢; omega
+    · simp [he] at ih ⊢; omega
+
+/-- with unambiguous ownership the number of eligible CPUs of the suppress path is the size of the
+    recover path's set = the CPUs that exist and are not reserved, not system-exclusive and not
+    named by an LSE pod (what the oracle counts as `eligible`). -/
+theorem eligible_count (pods : List PodC) (res sys : List Int) (procs : List Proc) (hun : Unamb pods) :
+    (lsrPool pods res sys procs).length + (lsPool pods res sys procs).length = (calcBESet procs pods res sys).length := by
+  rw [pools_length]
+  unfold calcBESet cpusOf
+  rw [List.filter_map, List.length_map]
+  congr 1
+  apply List.filter_congr
+  intro p _
+  have : (poolOf pods p.cpu != qLSE) = !lseClaimed pods p.cpu := by
+    cases hcl : lseClaimed pods p.cpu
+    · have : poolOf pods p.cpu ≠ qLSE := fun h => by rw [poolOf_lse_claimed pods _ h] at hcl; cases hcl
+      simp [this]
+    · have := exclusively_lse pods p.cpu ((lseClaimed_iff pods _).mp hcl) (hun _ hcl)
+      simp [this]
+  simp only [Function.comp, eligible, this]
+  cases sys.contains p.cpu <;> cases res.contains p.cpu <;> cases lseClaimed pods p.cpu <;> rfl
+
+/-- the statement's "exactly that many whenever enough eligible CPUs exist", in the oracle's terms. -/
+theorem exact_when_enough_eligible (f : FloatOps) (hf : FloatOK f) (b : Int) (oldN : Nat) (procs : List Proc) (pods : List PodC)
+    (res sys : List Int) (hnd : (cpusOf procs).Nodup) (hun : Unamb pods)
+    (hpos : 0 < (calcBESet procs pods res sys).length)
+    (hen : targetCpus f b oldN procs.length ≤ ((calcBESet procs pods res sys).length : Int)) :
+    ∃ cs, adjustCPUSet f b oldN procs pods res sys = .write cs ∧
+      (cs.length : Int) = targetCpus f b oldN procs.length ∧ cs.Nodup ∧ ∀ c ∈ cs, c ∈ calcBESet procs pods res sys := by
+  have hc := eligible_count pods res sys procs hun
+  obtain ⟨cs, h1, h2⟩ := exact_when_enough f hf b oldN procs pods res sys hnd (by omega) (by omega)
+  exact ⟨cs, h1, h2, (written_sound f hf b oldN procs pods res sys cs hnd h1).1,
+    written_subset_recover f hf b oldN procs pods res sys cs hnd hun h1⟩
+
+/-- "at least two": the wanted number is at least 2 unless the step limit `|old| + ⌈n/10⌉` itself is below 2. -/
+theorem target_ge_two (f : FloatOps) (hf : FloatOK f) (b : Int) (oldN n : Nat)
+    (h : 2 ≤ (oldN : Int) + ((n : Int) + 9) / 10) : 2 ≤ targetCpus f b oldN n := by
+  obtain ⟨_, _, h3, _, _⟩ := target_bounds f hf b oldN n
+  rcases h3 with h3 | h3 <;> omega
+
+/-- the quota written is never below the minimum quota (for a current quota that is −1 or ≥ 0, ≥ 1 CPU). -/
+theorem quota_ge_min (f : FloatOps) (hf : FloatOK f) (b cur cap q : Int) (hc : 1 ≤ coresOf cap) (hcur : 0 ≤ cur ∨ cur = -1)
+    (h : adjustQuota f b cur cap = .write q) : 2000 ≤ q := by
+  rw [quota_eq f hf b cur cap (by omega)] at h
+  have := targetQuota_ge b
+  split at h
+  · cases h
+  · split at h
+    · simp only [QOutcome.write.injEq] at h; omega
+    · simp only [QOutcome.write.injEq] at h; omega
+
+/-- what the 1 % bypass leaves in place is a finite quota within 1 % of capacity of the statement's value. -/
+theorem quota_bypass_close (f : FloatOps) (hf : FloatOK f) (b cur cap : Int) (hc : 0 ≤ coresOf cap)
+    (h : adjustQuota f b cur cap = .bypass) :
+    cur ≠ -1 ∧ cur - max (b * 100) 2000 < coresOf cap * 1000 ∧ max (b * 100) 2000 - cur < coresOf cap * 1000 := by
+  rw [quota_eq f hf b cur cap hc, targetQuota_eq] at h
+  split at h
+  · rename_i hh; omega
+  · split at h <;> cases h
+
+/-- annotation shapes: a shared system-QoS cpuset (`cpusetExclusive: false`), a malformed system-QoS or
+    reservation annotation and an unparsable `reservedCPUs` string protect nothing. -/
+theorem anno_shapes (cpus : List Int) :
+    effSysExcl 3 cpus = [] ∧ effSysExcl 4 cpus = [] ∧ effSysExcl 0 cpus = [] ∧ effSysExcl 1 cpus = cpus ∧ effSysExcl 2 cpus = cpus ∧
+    effReserved 0 cpus = [] ∧ effReserved 1 cpus = cpus ∧ effReserved 2 cpus = [] ∧ effReserved 3 cpus = [] := by
+  simp [effSysExcl, effReserved]
+
+/-! ### 15. whole rounds of suppressBECPU (`roundStep`) -/
+
+/-- the round acts: feature enabled, node object, at least one pod, node metric and NodeCPUInfo present. -/
+def RoundIn.acts (i : RoundIn) : Prop :=
+  i.sloKind = 3 ∧ i.nodeNil = false ∧ i.nPodMetas ≠ 0 ∧ i.nodeMetric = true ∧ i.infoMissing = false
+
+theorem round_no_panic (f : FloatOps) (st : RState) (i : RoundIn) : roundStep f st i ≠ none := by
+  have hp := adjustFull_no_panic f i.kp i.topoNil i.budget st.root.length i.procs i.pods i.reserved i.sysExcl
+  unfold roundStep
+  split
+  · simp
+  · split
+    · simp
+    · split
+      · simp
+      · split
+        · simp
+        · split
+          · contradiction
+          · simp
+
+/-- unusable NodeSLO, missing node / pods / node metric / NodeCPUInfo: the round changes nothing. -/
+theorem round_inactive (f : FloatOps) (st : RState) (i : RoundIn)
+    (h : i.sloKind ≤ 1 ∨ (i.sloKind = 3 ∧ (i.nodeNil = true ∨ i.nPodMetas = 0 ∨ i.nodeMetric = false ∨ i.infoMissing = true))) :
+    roundStep f st i = some st := by
+  unfold roundStep
+  rcases h with h | ⟨h3, h⟩
+  · simp [h]
+  · have h1 : ¬ i.sloKind ≤ 1 := by omega
+    have h2 : ¬ i.sloKind = 2 := by omega
+    have h4 : (i.nodeNil || i.nPodMetas == 0 || !i.nodeMetric || i.infoMissing) = true := by
+      rcases h with h | h | h | h <;> simp [h]
+    simp [h1, h2, h4]
+
+/-- feature disabled: the quota is unset (unless the agent already did so) and every level gets the recover set. -/
+theorem round_disabled (f : FloatOps) (st : RState) (i : RoundIn) (h : i.sloKind = 2) (hi : i.infoMissing = false) (ht : i.topoNil = false) :
+    ∃ st', roundStep f st i = some st' ∧ st'.root = calcBESet i.procs i.pods i.reserved i.sysExcl ∧ st'.cont = st'.root ∧ st'.pod = st'.root ∧
+      st'.quotaRecovered = true ∧ (st.quotaRecovered = false → st'.quota = -1) := by
+  unfold roundStep
+  simp only [h, if_true]
+  refine ⟨_, rfl, ?_⟩
+  unfold recoverCpusetAll recoverQuota
+  simp only [hi, ht, Bool.or_self, Bool.false_eq_true, if_false]
+  cases hq : st.quotaRecovered <;> simp [beUnsetQuota, hq]
+
+/-- quota mode: the BE group ends the round with a finite quota (never −1) that is the statement's value
+    `max(budget × 100, 2000)`, or — only when a quota was already set — within the 1 % bypass band / one 10 % step above
+    the old one; the cpuset is handed back to the recover set. -/
+theorem round_quota_mode (f : FloatOps) (hf : FloatOK f) (st : RState) (i : RoundIn) (ha : i.acts) (hq : i.quotaMode = true)
+    (hc : 1 ≤ coresOf i.capMilli) (hcur : 0 ≤ st.quota ∨ st.quota = -1) :
+    ∃ st', roundStep f st i = some st' ∧ st'.quota ≠ -1 ∧
+      (st.quota = -1 → st'.quota = max (i.budget * 100) 2000) ∧
+      (st'.quota = max (i.budget * 100) 2000 ∨
+        (st'.quota = st.quota ∧ st.quota - max (i.budget * 100) 2000 < coresOf i.capMilli * 1000 ∧
+          max (i.budget * 100) 2000 - st.quota < coresOf i.capMilli * 1000) ∨
+        (st'.quota = st.quota + coresOf i.capMilli * 10000 ∧ st'.quota < max (i.budget * 100) 2000)) ∧
+      (i.topoNil = false → st'.root = calcBESet i.procs i.pods i.reserved i.sysExcl) := by
+  obtain ⟨h3, hn, hp, hm, hi⟩ := ha
+  unfold roundStep
+  have h1 : ¬ i.sloKind ≤ 1 := by omega
+  have h2 : ¬ i.sloKind = 2 := by omega
+  have h4 : (i.nodeNil || i.nPodMetas == 0 || !i.nodeMetric || i.infoMissing) = false := by simp [hn, hp, hm, hi]
+  simp only [h1, h2, h4, hq, if_false, if_true, Bool.false_eq_true]
+  refine ⟨_, rfl, ?_⟩
+  have hroot : ∀ s : RState, i.topoNil = false → (recoverCpusetAll s i).root = calcBESet i.procs i.pods i.reserved i.sysExcl := by
+    intro s ht; unfold recoverCpusetAll; simp [hi, ht]
+  have hquota : ∀ s : RState, (recoverCpusetAll s i).quota = s.quota := by
+    intro s; unfold recoverCpusetAll; split <;> rfl
+  have hc0 : 0 ≤ coresOf i.capMilli := by omega
+  have hqe := quota_eq f hf i.budget st.quota i.capMilli hc0
+  rw [targetQuota_eq] at hqe
+  cases hres : adjustQuota f i.budget st.quota i.capMilli with
+  | bypass =>
+    obtain ⟨b1, b2, b3⟩ := quota_bypass_close f hf i.budget st.quota i.capMilli hc0 hres
+    simp only [hquota]
+    exact ⟨b1, fun h => absurd h b1, Or.inr (Or.inl ⟨trivial, b2, b3⟩), hroot _⟩
+  | write q =>
+    have hge := quota_ge_min f hf i.budget st.quota i.capMilli q hc hcur hres
+    simp only [hquota]
+    refine ⟨by omega, fun h => ?_, ?_, hroot _⟩
+    · rw [h, quota_from_unset_written f hf i.budget i.capMilli hc0] at hres
+      simp only [QOutcome.write.injEq] at hres
+      exact hres.symm
+    · rw [hres] at hqe
+      split at hqe
+      · cases hqe
+      · split at hqe
+        · rename_i hs
+          simp only [QOutcome.write.injEq] at hqe
+          right; right; omega
+        · simp only [QOutcome.write.injEq] at hqe
+          left; exact hqe
+
+/-- cpuset mode, policy none, topology present: the files get exactly the selection of `adjustCPUSet` on the round's budget and
+    the current size of the BE root cpuset (so `written_sound`, `exact_when_enough_eligible`, … apply to the round), and the
+    quota is unset. -/
+theorem round_cpuset_mode (f : FloatOps) (st : RState) (i : RoundIn) (ha : i.acts) (hq : i.quotaMode = false)
+    (hk : i.kp = kpNone) (ht : i.topoNil = false) :
+    roundStep f st i =
+      match adjustCPUSet f i.budget st.root.length i.procs i.pods i.reserved i.sysExcl with
+      | .panic => none
+      | .untouched => some (recoverQuota st)
+      | .write cs => some (recoverQuota { st with root := cs, pod := cs, cont := cs }) := by
+  obtain ⟨h3, hn, hp, hm, hi⟩ := ha
+  unfold roundStep
+  have h1 : ¬ i.sloKind ≤ 1 := by omega
+  have h2 : ¬ i.sloKind = 2 := by omega
+  have h4 : (i.nodeNil || i.nPodMetas == 0 || !i.nodeMetric || i.infoMissing) = false := by simp [hn, hp, hm, hi]
+  simp only [h1, h2, h4, hq, if_false, Bool.false_eq_true]
+  rw [hk, ht, adjustFull_none]
+  cases adjustCPUSet f i.budget st.root.length i.procs i.pods i.reserved i.sysExcl <;> simp [Written.nothing]
+
+/-- after a cpuset-mode round the BE quota is unset (or was already recovered by this agent). -/
+theorem round_cpuset_mode_quota (f : FloatOps) (st st' : RState) (i : RoundIn) (ha : i.acts) (hq : i.quotaMode = false)
+    (h : roundStep f st i = some st') : st'.quotaRecovered = true ∧ (st.quotaRecovered = false → st'.quota = -1) := by
+  obtain ⟨h3, hn, hp, hm, hi⟩ := ha
+  unfold roundStep at h
+  have h1 : ¬ i.sloKind ≤ 1 := by omega
+  have h2 : ¬ i.sloKind = 2 := by omega
+  have h4 : (i.nodeNil || i.nPodMetas == 0 || !i.nodeMetric || i.infoMissing) = false := by simp [hn, hp, hm, hi]
+  simp only [h1, h2, h4, hq, if_false, Bool.false_eq_true] at h
+  split at h
+  · cases h
+  · simp only [Option.some.injEq] at h
+    subst h
+    unfold recoverQuota
+    cases hr : st.quotaRecovered <;> simp [beUnsetQuota]
+
 /-! ### non-vacuity -/
 
 /-- 8 CPUs, 2 sockets × 2 cores × 2 threads (the layout of the package's unit test). -/
@@ -809,5 +1023,18 @@ example : 7 ∈ cpusOf (lsrPool [{ valid := true, qos := qLSE, cpus := [7] }, { 
     7 ∉ calcBESet demoProcs [{ valid := true, qos := qLSE, cpus := [7] }, { valid := true, qos := qLSR, cpus := [7] }] [] [] := by decide
 example : adjustQuotaPreFix exactOps 22 (-1) 3000 = .bypass ∧ adjustQuota exactOps 22 (-1) 3000 = .write 2200 := by decide
 example : (⟨qBE, 0, 100⟩ : AppU).counted = true ∧ (⟨qBE, 1, 100⟩ : AppU).counted = false ∧ (⟨qLS, 1, 100⟩ : AppU).counted = true := by decide
+example : (calcBESet demoProcs demoPods [] []).length = 7 ∧ targetCpus exactOps 3000 4 demoProcs.length = 3 := by decide
+example : effSysExcl 3 [0, 1] = [] ∧ effSysExcl 1 [0, 1] = [0, 1] := by decide
+
+/-- a two-round history on the demo node: cpuset mode (budget 3 CPUs, quota unset), then quota mode (budget 2.5 CPUs:
+    quota 250000, cpuset handed back to every unprotected CPU). -/
+def demoRound (quotaMode : Bool) (budget : Int) : RoundIn :=
+  { sloKind := 3, quotaMode := quotaMode, nodeNil := false, nPodMetas := 2, nodeMetric := true, infoMissing := false, budget := budget,
+    capMilli := 8000, procs := demoProcs, pods := demoPods, reserved := [], sysExcl := [], topoNil := false, kp := kpNone }
+example : (demoRound false 3000).acts := by unfold RoundIn.acts; decide
+example : roundStep exactOps ⟨[0, 1, 2, 3], [0, 1, 2, 3], [0, 1, 2, 3], 400000, false⟩ (demoRound false 3000) =
+    some ⟨[2, 3, 4], [2, 3, 4], [2, 3, 4], -1, true⟩ := by decide
+example : roundStep exactOps ⟨[2, 3, 4], [2, 3, 4], [2, 3, 4], -1, true⟩ (demoRound true 2500) =
+    some ⟨[0, 1, 2, 3, 4, 5, 6], [0, 1, 2, 3, 4, 5, 6], [0, 1, 2, 3, 4, 5, 6], 250000, false⟩ := by decide
 
 end KoordVerif.C10
